@@ -22,7 +22,7 @@ def mat_pairs(A, B):
 
 
 def group_tasks(tier):
-    gs = list(G_.CORE) + [G_.B1] if tier == "quick" else G_.CORE + G_.BUNDLES
+    gs = list(G_.CORE) + [G_.B1, G_.B2] if tier == "quick" else G_.CORE + G_.BUNDLES
     scal = ["d"] if tier == "quick" else ["d", "f"]
     return [(g.name, s) for g in gs for s in scal]
 
